@@ -12,7 +12,11 @@ TRUSTED_BASE_COMMON = [
 
 FAMILIES = {
     "codec": dict(src="codec.cpp"),
+    "conv": dict(src="conv.cpp"),
 }
+
+DEFAULT_MODE_VARIANTS = ["", "-DST_DEFAULT_VALIDATION=ST::substitute_invalid -DVH_DEFAULT_MODE=\"s\"",
+                         "-DST_DEFAULT_VALIDATION=ST::assume_valid -DVH_DEFAULT_MODE=\"a\""]
 
 def T(prop, *names):
     return ["StVerif.Props.%s.%s" % (prop, n) for n in names]
@@ -47,10 +51,44 @@ PROPS = {
     ),
 }
 
+PROPS.update({
+    "C01": dict(
+        family="conv", theorems=[],
+        rule="every Unicode scalar (1,112,064) alone and (thorough) in 25 neighbour contexts through 21 routes x 3 modes as 8192-scalar blocks compared by digest; "
+             "14 boundary scalars x 25 contexts, all 256 Latin-1 bytes x 3 positions and seeded random scalar sequences (length 0..40) through every public route "
+             "(free functions ptr/buffer, ST::string constructors/set/operator=/from_*/literals/std::basic_string/string_view, to_* members/std strings). "
+             "non-trivial = non-empty input; distinct = distinct input lines (blocks count their scalars)",
+        exhaustive={"quick": True, "thorough": True},
+        exhaustive_note="exhaustive over single scalars per route/mode; sequences are covered by the theorems (list induction), not by enumeration",
+        assumptions=["wchar_t is 32-bit on this platform: every wchar_t route is the UTF-32 route; the 16-bit enable_if branches are not compiled"],
+    ),
+    "C02": dict(
+        family="conv", theorems=[], variants=DEFAULT_MODE_VARIANTS,
+        rule="every string over a 14-symbol critical byte alphabet up to length 4 (quick) / 5 (thorough), over 8 UTF-16 and 9 UTF-32 critical units, "
+             "a second byte alphabet with C0/C1/F5/FF up to length 3, valid text with a malformed unit spliced/substituted at every position, seeded random garbage; "
+             "each through every route reading that encoding x {check, substitute, assume, default} x Latin-1 with/without substitution; harness rebuilt per "
+             "ST_DEFAULT_VALIDATION setting. non-trivial = non-empty input",
+        exhaustive={"quick": False, "thorough": False},
+    ),
+    "C03": dict(
+        family="conv", theorems=[],
+        rule="the C02 generators (arbitrary garbage in all four source encodings, every truncation point of well-formed text, null pointers with zero length), each "
+             "input in an exact-size heap block under ASan+UBSan; observed: exception kind or (size(), units, NUL terminator); aborts/hangs attributed per case",
+        exhaustive={"quick": False, "thorough": False},
+        trusted_base=["reads outside the input and writes outside the result are observed by ASan on the real code; the model-level counterpart is measure = fill length"],
+    ),
+})
+
 PENDING = "not yet built in this round (machinery under construction; see DESIGN.md section 8)"
 NOT_APPLICABLE = {("C%02d" % i): PENDING for i in range(1, 21)}
 
 MANIFEST_TEXT = {
+    "C01": dict(text="(under construction) correspondence + reference-transcoding check of every public conversion route on well-formed text",
+                design_ref="DESIGN.md section 3, C01", note="see evidence", technique="Lean 4 proof over a hand model + exhaustive per-scalar differential correspondence"),
+    "C02": dict(text="(under construction) correspondence + reference-transcoding check on malformed input, all modes and default-mode builds",
+                design_ref="DESIGN.md section 3, C02", note="see evidence", technique="Lean 4 proof over a hand model + differential correspondence"),
+    "C03": dict(text="(under construction) totality and memory safety of conversions on arbitrary input",
+                design_ref="DESIGN.md section 3, C03", note="see evidence", technique="Lean 4 proof over a hand model + differential correspondence under ASan/UBSan"),
     "C14": dict(
         text="Theorems (Lean kernel, all byte arrays by induction): the model of hex_encode/base64_encode equals the RFC 4648 encoding written with / and %, "
              "lengths are 2n and 4*ceil(n/3), and both decoder forms (and upper-case hex) return the original bytes. The model is tied to the code by "
